@@ -8,6 +8,7 @@ pub mod c03;
 pub mod c04;
 pub mod c05;
 pub mod c06;
+pub mod c07;
 pub mod c09;
 pub mod c10;
 pub mod c11;
@@ -17,6 +18,8 @@ pub mod c15;
 pub mod c16;
 pub mod store;
 pub mod c17;
+pub mod c19;
+pub mod c20;
 pub mod hist;
 
 pub fn dispatch(args: &Args) -> i32 {
@@ -27,6 +30,7 @@ pub fn dispatch(args: &Args) -> i32 {
         "C04" => c04::run(args),
         "C05" => c05::run(args),
         "C06" => c06::run(args),
+        "C07" => c07::run(args),
         "C09" => c09::run(args),
         "C10" => c10::run(args),
         "C11" => c11::run(args),
@@ -35,6 +39,8 @@ pub fn dispatch(args: &Args) -> i32 {
         "C15" => c15::run(args),
         "C16" => c16::run(args),
         "C17" => c17::run(args),
+        "C19" => c19::run(args),
+        "C20" => c20::run(args),
         "selfcheck" => {
             let ok = crate::vclock::self_check();
             println!("virtual clock self-check: {ok}");
